@@ -43,6 +43,29 @@ CHECKS = {
             "is empty or gone there, no non-current file is still low-use by the threshold, StorageSize never grows inside a cycle and grows at the following flush by at most the outstanding (relocated) work. "
             "Liveness is checked in this bounded form, which is what generated-input search can give.",
             BASE + " Thresholds are fixed per case; threshold 0 (every file permanently low-use) is excluded from the fixed-point clause.", "4 C11"),
+    "C08": (True, "exploration", "small-scope exhaustive enumeration + rapid random sequences against a per-operation invariant oracle",
+            "index.Index over the in-memory primary, driven under the caller contract the store keeps. Every ordered insertion of up to 5/6 keys of the universe {bucket}x{0,1}^3 followed by every single re-point, removal or re-insertion "
+            "under three flush placements, all insertions of up to 3/4 keys over a 3-symbol alphabet, plus random longer sequences over larger alphabets, key lengths and bit sizes; after EVERY operation each present key must resolve "
+            "to its latest location, absent keys to nothing or to a present key's location, the decoded list must be sorted, prefix-free, one entry per key with each stored prefix a prefix of its owner, and Update/Remove may touch only the addressed entry. "
+            "Exhaustive within the stated bound, exploration beyond it.",
+            BASE + " The decoded list is read through a verif-tagged accessor (the public iterator only sees flushed buckets).", "4 C08"),
+    "C09": (True, "exploration", "model-based property testing over configurations (rapid histories with re-bucketing and refused opens; all 289 bit-size pairs in the thorough tier)",
+            "Random histories at one index bit size, clean close, reopen at another (translation), full read-back and iteration against the reference map, more history under the new size, repeated; refused opens with another index / primary "
+            "file-size limit must return ErrIndexWrongFileSize / ErrPrimaryWrongFileSize and leave the contents readable under the original settings. The crash clause (an interrupted re-bucketing never opens with fewer keys) is decided by crash-point enumeration inside the translation (see evidence keys crash_*).",
+            BASE, "4 C09"),
+    "C13": (True, "exploration", "property testing with multiset accounting over histories; concurrent exploration of the freelist package with injected delays at named points",
+            "Sequential histories: the multiset of locations that stop being current (overwrite, removal, GC relocation; observed through the public index lookup around every call) must equal the multiset of locations that reach GC "
+            "(the .gc batch read at the named point just before it is dropped) plus what is left in .free/.free.gc after a final flush - each exactly once, nothing else, never a current location, and every delivered record is dead after its cycle. "
+            "Concurrent histories on the freelist alone: every Put is delivered exactly once across hand-overs and the final file while Flush/ToGC interleave.",
+            BASE + " The concurrent part is free-running with generated delays at the hook points, so its schedules are explored, not enumerated.", "4 C13"),
+    "C14": (True, "exploration", "small-scope exhaustive enumeration of call sequences + rapid random sequences + concurrent stress, against a handle model",
+            "All call sequences (Open/Close/Remove/Clear/SetCacheSize over 2 names, capacities 0..2) to depth 5/6, random sequences to depth 60, and a concurrent stress run; after every call each lent handle must still be usable, "
+            "Close of a lent handle must succeed, descriptors on the test files (/proc/self/fd) must not exceed capacity + lent handles, and nothing may stay open at the end.",
+            BASE + " Descriptor accounting reads /proc/self/fd (Linux).", "4 C14"),
+    "C15": (True, "exploration", "model-based property testing of the blockstore adapter (rapid call sequences vs. map keyed by multihash + contract clauses)",
+            "Random sequences of Put/PutMany/Get/Has/GetSize/DeleteBlock/HashOnRead with live and cancelled contexts over blocks of many sizes, CID versions, codecs and hash functions, alias CIDs of one multihash, and deliberately "
+            "mismatching (data, CID) pairs; each result is compared with a map keyed by multihash and with the contract clauses (not-found error class, ErrWrongHash exactly when enabled and mismatching, no effect of cancelled calls).",
+            BASE, "4 C15"),
 }
 
 NOT_YET = "check not implemented yet in this revision of /verif (work in progress, see DESIGN.md section 8)"
